@@ -209,6 +209,10 @@ def plan(tier, seed):
     for k in ([7, 8] if tier == "quick" else [7, 8, 9]):
         for shape in ("path", "star"):
             specs.append({"kind": "big-group", "k": k, "shape": shape})
+    # the same crossing pattern twice (thorough: also three times), separated by 0..8 plain hairpins: independent
+    # groups that look alike, at every offset of the stem numbering
+    for sl in range(3 if tier == "quick" else 12):
+        specs.append({"kind": "repeated-motif", "k": 4, "slice": sl, "of": 3 if tier == "quick" else 12, "copies": [2] if tier == "quick" else [2, 3]})
     for k in range(4 if tier == "quick" else 16):
         specs.append({"kind": "mapped", "examples": 60 if tier == "quick" else 500, "seed": seed * 1000 + 300 + k})
     return specs
@@ -255,6 +259,18 @@ def run_shard(spec) -> ShardResult:
         run_hypothesis(PROP_ID, strat, oracle, seed=spec["seed"], max_examples=spec["examples"], result=res,
                        to_json=tj, classify=classify)
         res.exhaustive = False
+    elif kind == "repeated-motif":
+        idx = 0
+        for chords in ssref.perfect_matchings(spec["k"]):
+            for between in range(0, 9):
+                for copies in spec["copies"]:
+                    if idx % spec["of"] == spec["slice"]:
+                        case = ssref.repeated_motif(chords, between, copies)
+                        nt, labs = classify(case)
+                        res.note_case(tj(case), nt, labs + ["repeated-motif"], sample_cap=1)
+                        check_case(PROP_ID, oracle, case, res, to_json=tj)
+                    idx += 1
+        res.exhaustive = True
     elif kind == "big-group":
         k = spec["k"]
         for lens, extra in (([1] * k, False), ([1 + (t % 2) for t in range(k)], True)):
